@@ -25,7 +25,7 @@ RULE = ("generated on-the-hour hourly inputs: 4 days..2 years, any start/end hou
 ASSUMPTIONS = ["supplied values are finite or NaN (no +-inf)", "zones whose DST shift is not a whole hour (Australia/Lord_Howe) are outside the quantifier: their hourly instants are not on the local hour after the shift", "a duplicate timestamp keeps the first supplied row as a whole",
                "the local day of a timestamp is taken from the zoneinfo database"]
 REQUIRED_REACH = {"dataset.checked": 60, "cells.supplied_compared": 50000, "cells.filled_checked": 2000, "fill.autocorr_cells": 500,
-                  "fill.fallback_cells": 50, "dup.rows": 50, "zero.electric_cells": 50, "dst.day_inside": 5}
+                  "fill.fallback_cells": 50, "dup.rows": 50, "zero.electric_cells": 50, "dst.day_inside": 5, "entry.datetime_column": 15, "entry.datetime_column_with_duplicates": 8}
 
 VIOL = []
 STAGE = {"autocorr": 0, "total": 0}
@@ -255,6 +255,13 @@ def gen_cases(tier, seed):
             defects.remove("empty_ghi")
         cases.append(dict(kind="dataset", tz=ZONES[i % nz], days=days, defects=defects, ghi=ghi, electric=bool(rng.random() < 0.7),
                           cls=str(rng.choice(["baseline", "reporting", "reporting-noobs"], p=[0.5, 0.3, 0.2])), n=i))
+        if i % 4 == 1:
+            # the documented alternative to a DatetimeIndex: timestamps in a tz-aware 'datetime' column (same rows, same order)
+            cases[-1]["datetime_col"] = True
+            if i % 8 == 1:
+                if "dups" not in cases[-1]["defects"]:
+                    cases[-1]["defects"] = [d_ for d_ in cases[-1]["defects"] if d_ != "unsorted"] + ["dups"]
+                cases[-1]["days"] = max(cases[-1]["days"], 45)
     return cases
 
 
@@ -267,6 +274,11 @@ def run_case(spec):
     df = make_input(rng, spec)
     df0 = df.copy(deep=True)
     cls = em.HourlyBaselineData if spec["cls"] == "baseline" else em.HourlyReportingData
+    if spec.get("datetime_col"):
+        df = df.rename_axis("datetime").reset_index()
+        I.reach("entry.datetime_column")
+        if "dups" in spec["defects"]:
+            I.reach("entry.datetime_column_with_duplicates")
     try:
         data = cls(df, is_electricity_data=spec["electric"])
     except Exception as e:
